@@ -26,6 +26,7 @@ struct C02Plan
   int reinit_threads;  // >0: initTaskingSystem(n) again while tasks may still be queued or running
   int sporadic;        // fire-and-forget tasks handed over one at a time with idle gaps (workers go to sleep in between)
   int sporadic_idle[6];
+  int sporadic_pair[6];  // 1: two functions are handed over back to back, the first keeps running until the second has run
 };
 extern "C" {
 const C02Plan *c02_plan();
@@ -44,5 +45,6 @@ void c02_tracked_dtor(const void *p);
 void c02_tracked_assign(const void *p);
 void c02_drain();
 void c02_wait_one(int id);                   // fair phase: wait (doing nothing) until function id has run                            // fair phase: wait (without doing anything) until every task has run
+void c02_wait_for(int id);   // spins until function id has completed (body of a long-lived function)
 void c02_run();
 }
